@@ -150,6 +150,40 @@ def run(rep, tier, rng):
                                "program": text, "working_directory_relative_to_program": os.path.relpath(cwd, os.path.dirname(path)),
                                "argument": arg, "got": [rc, out, err], "with_absolute_path": list(ref)})
                 break
+    # LONG output whose text is known without running anything: displays of literal strings of up to several thousand
+    # characters with line breaks anywhere (none, early, late, at the end), several per program, optionally followed by a failing form:
+    # standard output is exactly the characters of the strings, in order, whatever their length and wherever the line breaks are
+    for i in range(30 if tier == "quick" else 600):
+        parts, forms = [], ["(import (scheme base) (scheme write))"]
+        for _ in range(rng.randrange(1, 4)):
+            n = rng.choice([10, 500, 1023, 1024, 1025, 1500, 4096, 5000, 9000])
+            chars = [rng.choice("abcdefghij klmnop0123456789") for _ in range(n)]
+            for _b in range(rng.choice([0, 1, 1, 2, 5])):
+                chars[rng.choice([0, 1, n // 2, n - 2, n - 1, rng.randrange(n)])] = "\n"
+            txt = "".join(chars)
+            if rng.random() < 0.5:
+                forms.append('(display "%s")' % txt.replace("\n", "\\n"))          # written as the escape \n
+            else:
+                forms.append('(display "%s")' % txt)                                  # a raw line break inside the literal
+            parts.append(txt)
+            if rng.random() < 0.3:
+                forms.append("(newline)"); parts.append("\n")
+        failing = rng.random() < 0.4
+        if failing:
+            forms.append(rng.choice(["(car 5)", "(undefined-fn-zz 1)", "(vector-ref (vector 1) 3)"]))
+            forms.append('(display "never")')
+        text = "\n".join(forms) + "\n"
+        path = os.path.join(work, "progs", "long%d.scm" % i)
+        open(path, "wb").write(text.encode())
+        rc, out, err = F.run_cli(binp, os.path.join(work, "cwd"), path)
+        rep.count()
+        rep.nontrivial(("long", text))
+        want = "".join(parts)
+        if out != want or (rc == 0) == failing:
+            k = next((j for j in range(min(len(out), len(want))) if out[j] != want[j]), min(len(out), len(want)))
+            rep.violation({"what": "standard output is not exactly what the program displayed before the first failing form (long output)",
+                           "program": text if len(text) < 4000 else text[:2000] + " ... " + text[-1500:], "expected_length": len(want),
+                           "stdout_length": len(out), "first_difference_at": k, "exit": rc, "failing_form_present": failing})
     # special files
     for name, content in special:
         path = os.path.join(work, "progs", "special-" + name)
@@ -181,7 +215,7 @@ def main(tier, seed):
     rep.cov["rule"] = ("random programs that import the standard libraries, define, compute and display (strings with parentheses and "
                        "semicolons included), half of them with one injected run-time fault (8 kinds x 6 contexts) at a random position, a fifth "
                        "with a form rejected before evaluation (malformed special form, stray parenthesis, bad literal, unclosed form at end of file), "
-                       "joined by LF / CRLF / blank lines / blanks, with or without final newline; plus a missing file, a directory, "
+                       "joined by LF / CRLF / blank lines / blanks, with or without final newline; plus displays of literal strings of up to 9000 characters with line breaks anywhere (expected output known without running anything), a missing file, a directory, "
                        "a non-UTF-8 file, an empty file, CR LF inside a string literal; each run through the built binary from "
                        "another working directory, and (a sample) also by bare name from its own directory, as ./name and through ..; "
                        "distinct = distinct program texts")
